@@ -4,41 +4,41 @@ import json, subprocess
 
 CLAIMED = {
  "C01": ("exploration", "2/C01, 8", "runtime monitoring: reference-model monitor (source-level interpreter) over event transcripts of the real Runtime",
-         "Differential monitor: generated structured programs (every control statement, nested and early-left loops, NEXT lists, subroutines before or after the main part, programs that fall off the end or end in a conditional END, INPUT with reply scripts incl. rejected replies, INKEY$, fractional values and raw numeric IF/WHILE predicates, TRON) run on the real Runtime; the full event transcript of RUN, and of sessions TRON / RUN n / direct GOTO n, must equal the statement-by-statement reference interpreter's. Held on the ~10^5 distinct programs observed per quick run, nothing more."),
+         "Differential monitor: generated structured programs (every control statement, nested and early-left loops, NEXT lists, subroutines before or after the main part, programs that fall off the end or end in a conditional END, programs ending in ON..GOTO / ON..GOSUB, INPUT with reply scripts incl. rejected replies, INKEY$, fractional values and raw numeric IF/WHILE predicates, strings, numeric array elements with computed subscripts, TRON) run on the real Runtime; the full event transcript of RUN, and of sessions TRON / TROFF / RUN n / direct GOTO n / CONT / repeated RUN, must equal the statement-by-statement reference interpreter's. Held on the ~10^5 distinct programs observed per quick run, nothing more."),
  "C02": ("exploration", "2/C02, 8", "runtime monitoring: typed value model vs the typed VM stack read through the probe hook",
          "Expression trees over all operators and the four types, numeric literals in every documented form (typing rules), and the numeric functions go through the real lexer/parser/VM; the typed value on the VM stack at PRINT (probe hook) is compared with an exact reference model; precedence is checked by comparing minimally against fully parenthesised text; assignments are read back typed from the variable store."),
  "C03": ("exploration", "2/C03, 8", "runtime monitoring: hostile API sessions under panic / loop-fuel / CPU-watchdog monitors in two build flavours, plus Miri and valgrind memcheck (thorough)",
-         "Token soup, mutated programs, boundary-length lines and API interleavings (enter/execute/interrupt/CONT at prompts/get_listing/set_listing), sessions with the value stack a few cells below its limit and programs around the pool size, run under catch_unwind, loop-fuel hooks, a per-case CPU watchdog and an abort journal, in a release-like and an overflow-checked build; the thorough tier repeats scaled-down sessions under Miri (UB interpreter) and valgrind memcheck. Bounded-progress restatement of 'never wedges'."),
+         "Token soup, mutated programs, boundary-length lines and API interleavings (enter/execute/interrupt/CONT at prompts/get_listing/set_listing), sessions with the value stack a few cells below its limit, programs around the pool size and programs sized through the probe to end a few opcodes short of it followed by direct statements, string temporaries of tens of thousands of characters, breaks while an INPUT reply is being assigned, run under catch_unwind, loop-fuel hooks, a per-case CPU watchdog and an abort journal, in a release-like and an overflow-checked build; the thorough tier repeats scaled-down sessions under Miri (UB interpreter) and valgrind memcheck. Bounded-progress restatement of 'never wedges'."),
  "C04": ("exploration", "2/C04", "runtime monitoring: metamorphic monitor, edit-history vs fresh-interpreter transcripts",
-         "Random edit histories (insert/replace/delete incl. absent lines, DELETE ranges, RENUM, direct statements, optional earlier run stopping inside frames) ending in RUN/RUN n/CONT/RETURN/NEXT, compared with a fresh interpreter fed get_listing()."),
+         "Random edit histories (insert/replace/delete incl. absent lines, DELETE ranges, RENUM, direct statements, optional earlier run stopping inside frames) NEW / SAVE / LOAD, program lines that DELETE, ending in RUN/RUN n/CONT/RETURN/NEXT or a call of a function the earlier run defined, compared with a fresh interpreter fed get_listing(); non-editing direct statements must leave the listing unchanged."),
  "C05": ("exploration", "2/C05, 8", "runtime monitoring: list / re-enter fixed-point and AST-equality monitor, lines at the limit through enter + load_str",
          "Every generated, respelled (incl. crunched), mutated or token-soup line is listed, re-entered and listed again: text must be a fixed point, ASTs equal (or both rejected), and Listing::load_str of the saved text must give the same line; lines of 1018..1027 bytes go through Runtime::enter, LIST and load; exhaustive over short strings of the lexical alphabet in the thorough tier."),
  "C06": ("exploration", "2/C06, 8", "runtime monitoring: reference variable store vs responses, type invariant walked over the real store (probe hook)",
-         "Random sequences of assignments (with conversions), DIM/ERASE, DEFtype, SWAP and reads over colliding names, 1..3 dimensions, boundary / fractional / huge subscripts; a reference store predicts every value and error; after every statement the probe verifies that each stored value has the type its name implies."),
+         "Random sequences of assignments (with conversions), DIM/ERASE, DEFtype, SWAP and reads over colliding names, 1..3 dimensions, boundary / fractional / huge subscripts, chains store / ERASE / smaller DIM / same store on one array, program lines typed and removed in between, SWAP inside programs continued with CONT after TYPE MISMATCH; a reference store predicts every value and error; after every statement the probe verifies that each stored value has the type its name implies."),
  "C07": ("exploration", "2/C07", "runtime monitoring: character-vector string model vs Function::* and the pipeline",
-         "String functions and MID$ assignment with ASCII and multi-byte strings at boundary positions/lengths (0,1,len,len+1,255,256,negative), compared with a char-vector reference model."),
+         "String functions and MID$ assignment with ASCII and multi-byte strings (also periodic ones with self-overlapping INSTR patterns) at boundary positions/lengths (0,1,len,len+1,255,256,negative), stored into $ variables, array elements and variables that are strings by DEFSTR, and replies typed at INPUT, compared with a char-vector reference model."),
  "C08": ("exploration", "2/C08", "runtime monitoring: exact i64 model vs Operation/Function, rustc overflow instrumentation (chk build)",
-         "Exhaustive over all 65536 Integers for unary operations and over the boundary set squared (all 2^32 pairs in the thorough tier) for binary ones; floats at 1/16 steps, single and double ulps and 2^-k offsets around the conversion limits; in release-like and overflow-checked builds."),
+         "Exhaustive over all 65536 Integers for unary operations and over the boundary set squared (all 2^32 pairs in the thorough tier) for binary ones; floats at 1/16 steps, single and double ulps and 2^-k offsets around the conversion limits; through the pipeline: variables, arrays, DEFINT, FOR/NEXT, literals in every spelling under folded operators, variables retyped by DEFINT, and failing programs interrupted at every instruction boundary and continued (the error must still be reported); in release-like and overflow-checked builds."),
  "C09": ("exploration", "2/C09", "runtime monitoring: reference-model monitor (DATA/READ/RESTORE workload)",
-         "As C01 with DATA lines placed anywhere, READ lists (also with repeated targets), RESTORE and RESTORE n onto lines with and without DATA, OUT OF DATA, RUN n / direct GOTO sessions."),
+         "As C01 with DATA lines placed anywhere, READ lists (also with repeated targets), RESTORE and RESTORE n onto lines with and without DATA, OUT OF DATA, RUN n / direct GOTO sessions, refused direct DATA."),
  "C10": ("exploration", "2/C10", "runtime monitoring: reference-model monitor (DEF FN workload)",
-         "As C01 with user functions of 1..3 parameters that shadow program variables, nested calls, redefinition (also with another arity), calls inside PRINT lists, loops and subroutines."),
+         "As C01 with user functions of 1..3 parameters that shadow program variables, nested calls, redefinition (also with another arity), calls inside PRINT lists, loops, subroutines and array subscripts, arrays named like parameters, statements behind DEF on its line; a fixed corpus of 17 sessions for the documented errors."),
  "C11": ("exploration", "2/C11, 8", "runtime monitoring: column-tracking print-layout model vs Runtime output; read-back of number text",
-         "Print lists mixing strings (multi-byte, embedded line feed), numbers, ';' ',' juxtaposition, TAB SPC POS across statements, as one direct line or as program lines, also inside IF arms (separator before ELSE), compared with a column-tracking model; number text must read back to the same value and be the shortest such."),
+         "Print lists mixing strings (multi-byte, embedded line feed), numbers, ';' ',' juxtaposition, TAB SPC POS across statements, as one direct line or as program lines, also inside IF arms (separator before ELSE), INPUT between the PRINTs (also with the prompt re-issued by CONT after a break), compared with a column-tracking model; number text must read back to the same value and be the shortest such."),
  "C12": ("exploration", "2/C12", "runtime monitoring: metamorphic monitor (session prefix vs fresh RUN) + start-up-state probe after CLEAR/NEW",
-         "RUN after arbitrary session prefixes equals RUN in a fresh interpreter (transcript and final store); the probe shows start-up state after CLEAR and an empty listing after NEW."),
+         "RUN after arbitrary session prefixes equals RUN in a fresh interpreter (transcript and final store); the probe shows start-up state after CLEAR (typed, or executed by the program inside loops and subroutines) and after NEW, all 26 DEFtype letters included."),
  "C13": ("fault_enumeration", "2/C13, 8", "runtime monitoring: interrupt-point sweep (every execute(1) boundary incl. INPUT/INKEY$ waits) + quantum sweep + inserted STOP/END",
-         "Every instruction boundary of small programs (150 sampled for larger ones in the quick tier) is interrupted, optionally inspected, and continued with CONT, in states Running, Input, InputRedo, InputRunning and Inkey; whole runs repeated with execute() quanta 1,2,3,7,64; STOP or END inserted at a random statement boundary and continued."),
+         "Every instruction boundary of small programs (150 sampled for larger ones in the quick tier) is interrupted, optionally inspected, and continued with CONT, in states Running, Input, InputRedo, InputRunning, Inkey and RuntimeError (error raised, not yet reported); whole runs repeated with execute() quanta 1,2,3,7,64; STOP or END inserted at a random statement boundary and continued."),
  "C14": ("exploration", "2/C14", "runtime monitoring: RENUM structural oracle over listings + behaviour equality",
-         "After RENUM a,b,c the listing must be the model's renumbering (order, unchanged prefix, rewritten operands, nothing else) or unchanged on error, and the run transcript must be equal up to line numbers."),
+         "After RENUM a,b,c the listing must be the model's renumbering (order, unchanged prefix, rewritten operands, nothing else) or unchanged on error (also: refused as a program statement and with compile errors), the run transcript must be equal up to line numbers, and with TRON on equal to that of the reference text typed into a fresh interpreter, line numbers included."),
  "C15": ("exploration", "2/C15", "runtime monitoring: ordered-map model vs listing, LIST and DELETE events",
-         "Random edit/LIST/DELETE histories over a small universe and the whole range against a BTreeMap model; every LIST output and the listing after every step are compared."),
+         "Random edit/LIST/DELETE histories over a small universe and the whole range against a BTreeMap model, after an exhaustive enumeration of all histories of 1..2 (thorough: 3) commands over a small universe; every LIST output, get_listing().line(n) and the listing after every step are compared; refused forms (numbers above 65529, inverted ranges, DELETE without a number followed by anything, lines too long when listed) must change nothing."),
  "C16": ("exploration", "2/C16, 8", "runtime monitoring: respelling metamorphic monitor (case, blanks, crunched keywords, aliases)",
          "Each program in canonical and random spelling (case, optional blanks, blanks inside relational operators, ?, GO TO, crunched keywords such as 7MOD3 / THENPRINT / ONA wherever the reserved-word split is unambiguous): listings equal up to optional blanks next to punctuation (a blank between two words is required), runs equal."),
  "C17": ("exploration", "2/C17", "runtime monitoring: INPUT reply model vs Input events, REDO, stored values (probe)",
-         "INPUT statements with 1..4 variables of every type and replies with quotes, commas, blanks, radix forms (all hex digits) and malformed numbers, compared with a reference reply parser (prompt, caps flag, stored values, REDO)."),
+         "INPUT statements with 1..4 variables of every type and replies with quotes, commas, blanks, radix forms (all hex digits), blank-only fields and malformed numbers, under DEFtype settings, as a direct line or as a program line with a break + CONT at one of the prompts, compared with a reference reply parser (prompt, caps flag, stored values, REDO)."),
  "C18": ("exploration", "2/C18, 8", "runtime monitoring: stack-shape conservation monitor, pool-limit drivers, zeroing monitor, counting allocator",
-         "Generated looped programs carry Z9 markers; at every marker the real value-stack depth (probe) must equal 4*FOR+GOSUB frames of the reference interpreter; all-flat programs run 3000 passes with flat stack and heap; each statement form looped 70,000 times; every pool driven past its limit must end in OUT OF MEMORY with a bounded heap high-water mark and a usable session; 22 ways of making variables 0 / \"\" must free their slots."),
+         "Generated looped programs carry Z9 markers; at every marker the real value-stack depth (probe) must equal 4*FOR+GOSUB frames of the reference interpreter; all-flat programs run 3000 passes with flat stack and heap; each statement form looped 70,000 times; every pool driven past its limit must end in OUT OF MEMORY with a bounded heap high-water mark and a usable session; 22 ways of making variables 0 / \"\" must free their slots; breaks at INKEY$ / INPUT waits inside loops and subroutines must be continued with the same stack depth and leave nothing behind."),
  "C19": ("exploration", "2/C19, 8", "runtime monitoring: fault injection + diagnostic-range oracle over listed text + execution gate",
          "Dangling references (also to line 0) injected in every referencing form (with multi-byte text before them), unmatched WHILE/WEND and token damage: the reported range must cover exactly the number/keyword in the listed text, LIST underlines the same range, no line of the program may execute, and direct statements incl. direct WHILE/FOR loops still work."),
  "C20": ("exploration", "2/C20, 8", "runtime monitoring: layout-transformation metamorphic monitor",
@@ -81,7 +81,7 @@ def main():
                 "replay_cmd_template": "./check %s --replay {path}" % pid,
                 "engine": "vh",
                 "level_claimed": {"category": level, "text": text, "design_ref": "DESIGN.md section " + ref},
-                "level_note": "Trusted: the reference model/relation written from the manual (DESIGN.md Appendix A), the driver's mirroring of the terminal's calling protocol, rustc (and Miri / valgrind where named). Held only on the executions observed (counts in the evidence file); validated against 39 independently seeded changes (seeded/SUMMARY.md) and the mutation catalogue (mutants/).",
+                "level_note": "Trusted: the reference model/relation written from the manual (DESIGN.md Appendix A), the driver's mirroring of the terminal's calling protocol, rustc (and Miri / valgrind where named). Held only on the executions observed (counts in the evidence file); validated against the independently seeded changes kept under seeded/ (four rounds, table in seeded/SUMMARY.md) and the mutation catalogue (mutants/).",
                 "technique": tech,
             })
         else:
